@@ -1163,6 +1163,7 @@ pub fn check_seq(case: &SeqCase, out: &mut CaseOut) {
 
 pub fn property() -> Property {
     Property {
+        fuzz: vec![],
         id: "C14",
         rule: "config: every combination of {UDP/v4, UDP/v6, secure datagram/v4, secure datagram/v6} subsets x insecure factory {absent, connects, refuses} x secure factory {absent, connects, refuses} (both registration orders when both are present) x pre-existing connection {none, insecure outbound to the destination, secure outbound to the destination, secure outbound to the same host other port, secure outbound to another host, secure inbound from the destination} (all held by a TpHandle) x {sip, sips} x {IPv4, IPv6 literal} x {no port, :5099} x target info {empty, pinned to a secure / an insecure transport outside the configuration with a foreign destination}; one OPTIONS request per configuration, each in its own paused-clock world. sequence: 2..6 requests with varying URIs (2 hosts per family, ports default/5060/5061/5099) against one endpoint; transaction + target info of each request held or dropped at random, held ones released later, 40 s pauses expire unreferenced connections, kept target infos are re-used as pins, factories refuse per step, inbound connections from the destination appear. Observed: which mock's send() carried the request to which destination, which factory was asked to connect. Non-trivial = (sips target and at least one insecure candidate configured) or eligible candidates on at least two of the paths datagram / existing connection / factory; distinct by hash of the case.",
         assumptions: vec![
